@@ -108,7 +108,7 @@ def slim(e):
 # Engine A: exhaustive round trip   MCQueue -> replay (+ probes from every state) -> TraceQueue
 # ------------------------------------------------------------------------------------------------
 def engine_A(name, kinds, nitems, maxp, probe_filter, wit, hashers=("std",), extra_probes=None,
-             wd_name=None, max_states=None, alphabet="full", probe_sample=None, seed=1):
+             wd_name=None, max_states=None, alphabet="full", probe_sample=None, seed=1, tails=None):
     f = Findings()
     for kind in kinds:
         wd = vlib.workdir((wd_name or name) + "_A%s_" % ("" if alphabet == "full" else alphabet) + kind)
@@ -134,7 +134,18 @@ def engine_A(name, kinds, nitems, maxp, probe_filter, wit, hashers=("std",), ext
             reps = reps[:max_states]
         cases = []
         rng = random.Random(seed * 7919 + len(reps))
-        for h in hashers:
+        if tails is not None:
+            # instead of probing clones: one case per (state, tail) whose steps are the history followed by the
+            # tail, executed on the SAME queue (so that e.g. capacities are those the history really produced)
+            tl = tails(kind, keyset(nitems), maxp)
+            for h in hashers:
+                for i, r in enumerate(reps):
+                    for j, t in enumerate(tl):
+                        cases.append({"case": [kind, h, "tail", i, j], "kind": kind, "hasher": h,
+                                      "universe": keyset(nitems) + ["z"], "steps": r["steps"] + t, "probes": [],
+                                      "wit": wit})
+            probes = []
+        for h in (hashers if tails is None else ()):
             for i, r in enumerate(reps):
                 pr = probes
                 if probe_sample is not None and len(probes) > probe_sample:
@@ -400,4 +411,133 @@ def engine_E(name, kinds, sizes, lin_sizes, seed, wd_name=None):
             if "n0" in e:
                 seen.add((e.get("kind"), e["op"], e["n0"].bit_length()))
     f.stats["distinct_nontrivial"] += len(seen)
+    return f
+
+
+# ------------------------------------------------------------------------------------------------
+# Engine D: faults.  MCFault model-checks the crash-point semantics (NoUB, SafeRep) and proposes the
+# schedules that reach undefined behaviour in the model; the harness sweeps EVERY crash point k of every
+# callback class on the real code from every covered state, runs continuations on the damaged queue and
+# drops everything.  A violation needs a concrete unsafe access (the harness process dies in std's
+# precondition check / by signal) or a drop imbalance.
+# ------------------------------------------------------------------------------------------------
+def fault_conts(kind, keys, tier):
+    pm = ["pop"] if kind == "pq" else ["pop_min", "pop_max"]
+    n = len(keys)
+    conts = [
+        [{"op": pm[0]}] * (n + 2),
+        [{"op": pm[-1]}, {"op": "push", "k": "z", "r": 5}, {"op": "push", "k": "y", "r": -5}, {"op": pm[0]}, {"op": pm[-1]}],
+        [{"op": "remove", "k": k} for k in keys] + [{"op": "push", "k": "z", "r": 0}],
+        [{"op": "change_priority", "k": keys[0], "r": 9}, {"op": "change_priority", "k": keys[-1], "r": -9}, {"op": pm[0]}, {"op": pm[0]}],
+        [{"op": "retain", "keep": keys[1:]}, {"op": pm[0]}, {"op": "push", "k": "z", "r": 1}],
+        [{"op": "iter_mut", "n": n, "set": {keys[0]: 7}}, {"op": pm[-1]}],
+        [{"op": "push", "k": "z", "r": 3}, {"op": "push", "k": "y", "r": 4}, {"op": "push", "k": "x", "r": 2}] + [{"op": pm[0]}] * 3,
+        [{"op": "contents"}, {"op": "iter_calls", "it": "drain", "calls": [0, 0]}, {"op": "push", "k": "z", "r": 1}, {"op": pm[0]}],
+        [{"op": "extend", "pairs": [["z", 1], [keys[0], 2]]}, {"op": "convert"}, {"op": "pop" if kind == "dpq" else "pop_min"}],
+    ]
+    if tier == "thorough":
+        # second faults inside the continuation
+        conts += [
+            [{"op": "push", "k": "z", "r": 9, "fault": {"cmp": 0}}, {"op": pm[0]}, {"op": pm[0]}],
+            [{"op": "push", "k": "z", "r": 9, "fault": {"cmp": 1}}, {"op": "push", "k": "y", "r": 9}, {"op": pm[0]}, {"op": pm[0]}],
+            [{"op": "change_priority", "k": keys[-1], "r": 9, "fault": {"cmp": 0}}, {"op": pm[-1]}, {"op": pm[0]}],
+            [{"op": "retain_mut", "keep": keys, "set": {}, "fault": {"cb": 1}}, {"op": "push", "k": "z", "r": 9}, {"op": pm[0]}, {"op": pm[0]}],
+        ]
+    return conts
+
+
+def fault_ops(kind, keys, maxp):
+    pm = ["pop"] if kind == "pq" else ["pop_min", "pop_max"]
+    pif = ["pop_if"] if kind == "pq" else ["pop_min_if", "pop_max_if"]
+    ops = []
+    for k in keys + ["z"]:
+        for r in (0, maxp, maxp + 3, -3):
+            ops.append({"op": "push", "k": k, "r": r})
+        ops.append({"op": "push_increase", "k": k, "r": maxp + 3})
+        ops.append({"op": "push_decrease", "k": k, "r": -3})
+        ops.append({"op": "change_priority", "k": k, "r": maxp + 3})
+        ops.append({"op": "change_priority", "k": k, "r": -3})
+        ops.append({"op": "change_priority_by", "k": k, "r": maxp + 3})
+        ops.append({"op": "remove", "k": k})
+    for p in pm:
+        ops.append({"op": p})
+    for p in pif:
+        ops.append({"op": p, "yes": True, "set": [-3]})
+        ops.append({"op": p, "yes": False, "set": [maxp + 3]})
+    ops.append({"op": "retain", "keep": keys[:-1]})
+    ops.append({"op": "retain_mut", "keep": keys[1:], "set": {keys[-1]: maxp + 3}})
+    ops.append({"op": "retain_mut", "keep": keys, "set": {keys[0]: -3}})
+    ops.append({"op": "iter_mut", "n": len(keys), "set": {keys[0]: maxp + 3, keys[-1]: -3}})
+    ops.append({"op": "extend", "pairs": [["z", maxp + 3], [keys[0], -3], ["y", 0]]})
+    ops.append({"op": "extend", "pairs": [["z", maxp + 3], [keys[0], -3], ["y", 0]], "hint": [0, -1]})
+    ops.append({"op": "convert"})
+    return ops
+
+
+def engine_D(name, kinds, nitems, maxp, tier, seed, wd_name=None, model=True, model_scope=None):
+    f = Findings()
+    for kind in kinds:
+        wd = vlib.workdir((wd_name or name) + "_D_" + kind)
+        ubsched = []
+        if model:
+            ms = model_scope or {"Items": nitems + 1, "MaxP": 1, "MaxFaults": 1, "MaxK": 4, "MaxAfter": 2, "MaxSize": nitems + 1}
+            consts = {"Items": vlib.tla_set(keyset(ms["Items"])), "MaxP": str(ms["MaxP"]), "Kind": vlib.tla_str(kind),
+                      "MaxFaults": str(ms["MaxFaults"]), "MaxK": str(ms["MaxK"]), "MaxAfter": str(ms["MaxAfter"]),
+                      "MaxSize": str(ms["MaxSize"])}
+            mc = vlib.run_mc("MCFault", consts, ["EmitUB", "NoUB", "SafeRep"], wd, cont=True, timeout=3000)
+            for line in open(mc["out"]):
+                if line.startswith('<<"UBSCHEDULE", "'):
+                    ubsched.append(json.loads(vlib.unescape_tla(line.strip()[len('<<"UBSCHEDULE", "'):-3])))
+            viol = sorted(set(mc["violated"]))
+            log("[D/%s] MCFault %s: %d distinct states, %d transitions, %.0fs; %s"
+                % (kind, ms, mc["distinct"], mc["generated"], mc["wall"],
+                   "NoUB and SafeRep hold for every crash point" if not viol else
+                   "MODEL-PREDICTION: %s violated (%d schedules reach an unchecked out-of-bounds access in the model; "
+                   "they are replayed on the real code below)" % (viol, len(ubsched))))
+            f.stats["states"] += mc["distinct"]
+            f.stats["transitions"] += mc["generated"]
+            f.stats["engines"].append({"engine": "MCFault", "kind": kind, "scope": ms, "distinct_states": mc["distinct"],
+                                       "violated_in_model": viol, "ub_schedules": len(ubsched)})
+        # covered states: the covering histories of the exhaustive model
+        wd2 = vlib.workdir((wd_name or name) + "_Dstates_" + kind)
+        consts = {"Items": vlib.tla_set(keyset(nitems)), "MaxP": str(maxp), "Kind": vlib.tla_str(kind), "Emit": "TRUE",
+                  "Alphabet": vlib.tla_str("core")}
+        mq = vlib.run_mc("MCQueue", consts, ["WFInv", "OrdInv", "Refines", "EmitInv"], wd2)
+        keys = keyset(nitems)
+        ops = fault_ops(kind, keys, maxp)
+        conts = fault_conts(kind, keys, tier)
+        cases = []
+        # model-proposed schedules first: each is a plain history with one faulty step
+        for i, sc in enumerate(ubsched[:40]):
+            steps = []
+            for h in sc["hist"]:
+                if "fault" in h:
+                    o = dict(h["op"])
+                    cls = h["fault"]["class"]
+                    o["fault"] = {("hash" if cls == "look" else cls): h["fault"]["k"]}
+                    steps.append(o)
+                else:
+                    steps.append(h)
+            cases.append({"case": [kind, "ubschedule", i], "kind": kind, "hasher": "std", "universe": keyset(nitems + 1),
+                          "steps": steps, "probes": [], "wit": [], "sweep": {"ops": [], "classes": [], "conts": []}})
+        for i, r in enumerate(mq["replay"]):
+            for j in range(0, len(ops), 6):
+                cases.append({"case": [kind, "sweep", i, j], "kind": kind, "hasher": ["std", "fixed"][i % 2],
+                              "universe": keys + ["z", "y", "x"], "steps": r["steps"], "probes": [], "wit": [],
+                              "sweep": {"ops": ops[j:j + 6], "classes": ["cmp", "hash", "eq", "cb", "clone"], "maxk": 60,
+                                        "conts": conts}})
+        f.samples.append({"engine": "D", "kind": kind, "example_state_history": mq["replay"][-1]["steps"],
+                          "swept_operation": ops[0], "classes": ["cmp", "hash", "eq", "cb", "clone"],
+                          "continuations": len(conts)})
+        f.stats["engines"].append({"engine": "D", "kind": kind, "states": len(mq["replay"]), "ops": len(ops),
+                                   "continuations": len(conts), "model_schedules_replayed": min(len(ubsched), 40)})
+        replay_and_validate(cases, wd, "D/" + kind, f, count=False)
+        # crash points exercised = events with an injected fault
+        inj = 0
+        for ef in f.event_files:
+            if "_D_" in ef:
+                for ln in open(ef):
+                    if '"injected":0' not in ln and '"injected":' in ln:
+                        inj += 1
+        f.stats["distinct_nontrivial"] = inj
     return f
